@@ -55,6 +55,22 @@ EXPECT_STATICS = {
 }
 
 
+# what lives inside the cells that clones share: each field is a lexer table / memo of derivatives that is
+# keyed by lexer state only (never by a position in one engine's history). A new field is reported.
+SHARED_CONTENT = {
+    "llguidance::earley::parser::SharedState": {"lexer_opt": "the lexer"},
+    "llguidance::earley::lexer::Lexer": {"dfa": "derivative automaton", "allowed_first_byte": "constant after construction",
+                                          "spec": "lexer spec, constant after construction"},
+    "llguidance::earley::regexvec::RegexVec": {
+        "exprs": "hash-consed regex expressions (append-only)", "deriv": "derivative memo", "next_byte": "next-byte memo",
+        "relevance": "emptiness memo", "alpha": "alphabet compression + sticky error flag", "rx_lexemes": "constant",
+        "lazy": "constant", "subsumable": "constant", "rx_list": "constant", "special_token_rx": "constant",
+        "rx_sets": "hash-consed state descriptors (append-only)", "state_table": "transition table (MISSING -> state, write-once cells)",
+        "state_descs": "per-state memo (append-only)", "num_transitions": "statistics", "num_ast_nodes": "statistics",
+        "max_states": "limit (set per call from the engine's limits)", "fuel": "limit (set per call from the engine's limits)"},
+}
+
+
 def ty_name(t):
     k = t["k"]
     if k == "adt":
@@ -126,6 +142,18 @@ def run(ctx):
     for n, path in sorted(dyns.items()):
         ctx.check(n in EXPECT_DYN, "C14-R1", "shared-dyn:" + n, EXPECT_DYN.get(n, ""),
                   "new trait object behind a shared pointer: Arc<dyn %s> via %s (its implementations may hide mutable state)" % (n, " -> ".join(path)))
+    for adt_name, table in SHARED_CONTENT.items():
+        a = P.adts.get(adt_name)
+        if a is None:
+            ctx.violation("C14-R1", "anchor-missing:" + adt_name, "shared type %s not found" % adt_name)
+            continue
+        for f in a["variants"][0]["fields"]:
+            ctx.check(f["name"] in table, "C14-R1", "shared-content:%s.%s" % (adt_name.rsplit("::", 1)[1], f["name"]),
+                      table.get(f["name"], ""),
+                      "%s.%s (%s) is new state inside the cell that shallow clones share (Arc<Mutex<..>>): every clone reads and "
+                      "writes the same slot, so per-engine data placed here (e.g. a cache keyed by a position in one engine's history) "
+                      "leaks between clones" % (adt_name.rsplit("::", 1)[1], f["name"], f["ty"]),
+                      site="%s:%s" % (a["file"], a["line"]))
     ctx.info("C14-R1", "raw pointers reachable from root types: %s" % sorted(rawptrs))
     for n, path in sorted(rawptrs.items()):
         ctx.check(path and path[0].startswith(("Llg",)), "C14-R1", "rawptr:" + n, "raw pointer only inside C-API handle structs (%s)" % path[0],
